@@ -197,3 +197,30 @@ Example c04_cooling_example :
     (exists k ti r f, nth_error (tables s) k = Some ti /\ tsup ti = Some r /\ tfreed ti = Some f /\ f - r = 128) /\
     uaf s <> [].
 Proof. exact cv_cooling_example. Qed.
+
+(* ---- "constructed before anyone can see it": publication of a freshly built block table on the release/acquire
+   view machine (coq/WM/RA.v), orders regenerated from vector.hpp.  Two growers race to CAS-publish their table;
+   a reader that acquires the pointer (get_qualified_block_table / snapshot) reads the winner's table and blocks
+   without a data race; the CAS loser, which continues with the winner's table, does too (failure order). *)
+Require Import Verif.Base.Atomics Verif.WM.RA Verif.WM.RALitmus Verif.WM.RALitmusProofs.
+Definition c04_cas_success : morder := match sites_get_table_slow with [(KCasS, o, _)] => o | _ => Relaxed end.
+Definition c04_cas_failure : morder := match sites_get_table_slow with [(KCasS, _, o)] => o | _ => Relaxed end.
+Definition c04_table_load : morder := match sites_get_table with [(KLoad, o, _)] => o | _ => Relaxed end.
+Definition c04_snapshot_load : morder := match sites_snapshot with [(KLoad, o, _)] => o | _ => Relaxed end.
+
+Theorem c04_table_publication : forall sch,
+  RA.final (RA.run (RA.init (mp_cas_publish c04_cas_success c04_table_load)) sch) = true ->
+  mp_cas_bad (RA.result (RA.run (RA.init (mp_cas_publish c04_cas_success c04_table_load)) sch)) = false.
+Proof. apply mp_cas_publish_all_executions. vm_compute. reflexivity. Qed.
+Print Assumptions c04_table_publication.
+
+Theorem c04_snapshot_publication : forall sch,
+  RA.final (RA.run (RA.init (mp_cas_publish c04_cas_success c04_snapshot_load)) sch) = true ->
+  mp_cas_bad (RA.result (RA.run (RA.init (mp_cas_publish c04_cas_success c04_snapshot_load)) sch)) = false.
+Proof. apply mp_cas_publish_all_executions. vm_compute. reflexivity. Qed.
+Print Assumptions c04_snapshot_publication.
+
+(* the loser of the publication CAS acquires the winner's table: both the success and the failure order matter *)
+Theorem c04_cas_loser_sees_winner_table :
+  has_acquire c04_cas_failure = true /\ has_release c04_cas_success = true /\ has_acquire c04_cas_success = true.
+Proof. vm_compute. repeat split; reflexivity. Qed.
